@@ -7,14 +7,17 @@
 namespace util {
 
 template <> struct ToStringBuf<double> {
-  // DoubleToStringConverter::kBase10MaximalLength + 1 for null paranoia.
-  static const unsigned kBytes = 19;
+  // ToShortest with decimal_in_shortest_low = -6 and decimal_in_shortest_high = 21
+  // emits at most 25 characters: sign, "0.", 5 zeros and
+  // DoubleToStringConverter::kBase10MaximalLength = 17 digits, e.g.
+  // -0.000001234567890123456.  StringBuilder's destructor appends a null.
+  static const unsigned kBytes = 26;
 };
 
 // Single wasn't documented in double conversion, so be conservative and
 // say the same as double.
 template <> struct ToStringBuf<float> {
-  static const unsigned kBytes = 19;
+  static const unsigned kBytes = 26;
 };
 
 char *ToString(double value, char *to);
